@@ -15,13 +15,13 @@ from vf import drivers
 PROPERTY = "C10"
 LEVEL = "fault_enumeration"
 SHARDS = {"quick": 4, "thorough": 16}
-REQUIRED = ["sequential-model", "identity-of-repeats", "consumption-monitor", "concurrent-invariants", "disconnect-cases"]
+REQUIRED = ["sequential-model", "identity-of-repeats", "consumption-monitor", "concurrent-invariants", "disconnect-cases", "parsed-json-then-changed-by-its-view"]
 RULE = ("Sequential: bodies {JSON, invalid JSON, urlencoded, multipart, empty} x chunkings {whole, 2-split at every position (short bodies) / fixed splits, 1-byte, with "
         "empty messages first/middle/last} x disconnect position {none, before any message, between chunks, before the final one} (ASGI) x EVERY access sequence of length "
         "<=3 (thorough 4) over {body, stream, stream-partial, json, form, close}, both interfaces. Concurrent (ASGI): 2-3 tasks x one access each from {body, json, form, "
         "stream} x yield vectors {0,1,3}^k before each access x 0/1 yields inside receive() x 3 chunkings x 3 disconnect positions x 3 body kinds. Non-trivial = sequence "
         "with >=2 body-touching accesses, or a disconnect, or a concurrent history; sequences are distinct by construction.")
-RULE += " Also: request.stream() called and the iterator dropped unused (reads nothing); a second Request object on the same scope / environ with its own input channel; 2-4 requests in flight at once, each body arriving in pieces, read through one accessor; accurate Content-Length on half of the requests, payloads on GET / DELETE / PUT, minimal ASGI messages (optional keys omitted), every spelling of stream()'s chunk-size argument."
+RULE += " Also: request.stream() called and the iterator dropped unused (reads nothing); a second Request object on the same scope / environ with its own input channel; 2-4 requests in flight at once, each body arriving in pieces, read through one accessor; accurate Content-Length on half of the requests, payloads on GET / DELETE / PUT, minimal ASGI messages (optional keys omitted), every spelling of stream()'s chunk-size argument. The view of each request changes the JSON object it parsed; the next request carrying the same bytes must get the parse of its own body."
 ASSUMPTIONS = [
     "the outcome of close() is not judged (only that it consumes nothing)",
     "a partially iterated stream followed by a disconnect is 'partial', not ClientDisconnect",
@@ -328,6 +328,16 @@ def judge_seq(ctx, kind, bname, chunks, seq, disc):
     for name, lst in objs.items():
         if any(o is not lst[0] for o in lst[1:]):
             ctx.violation(f"repeated-access-returns-different-object|{name}|{kind}", case, "")
+    # the view owns what it parsed and uses it (pops a key, appends): the next request carrying the same bytes must not see that
+    for o in objs.get("json", [])[:1]:
+        if isinstance(o, dict):
+            o["added-by-the-view-of-an-earlier-request"] = True
+            for v in o.values():
+                if isinstance(v, list):
+                    v.append("added-by-the-view-of-an-earlier-request")
+        elif isinstance(o, list):
+            o.append("added-by-the-view-of-an-earlier-request")
+        ctx.mon("parsed-json-then-changed-by-its-view")
     ctx.mon("consumption-monitor")
     if cons["after_end"]:
         ctx.violation(f"input-requested-after-terminal-message|{kind}", case, f"{cons['after_end']} extra receive()/read() calls")
